@@ -66,6 +66,10 @@ type world struct {
 	ownSig func(f sim.Finding) string
 	// statusJudged counts the parent writes judged by M-STATUS
 	statusJudged int
+	// viewsJudged counts the hook requests judged by M-VIEW; noViewMonitor switches it off for
+	// tests in which an outside writer acts while hook calls are in flight
+	viewsJudged   int
+	noViewMonitor bool
 	// strategyJudged counts the child requests judged by M-STRATEGY
 	strategyJudged int
 	// caseID is the case id used in reports (defaults to cfg.ID)
@@ -139,6 +143,11 @@ func newWorld(cfg worldCfg) *world {
 	w.hooks = sim.NewHookSite(s.Clock(), s.Tag)
 	w.hooks.HandleJSON("sync", sim.CompositeProgram)
 	w.hooks.HandleJSON("finalize", sim.CompositeProgram)
+	w.hooks.SetObserver(func(call *sim.HookCall) {
+		if !w.noMonitors && !w.noViewMonitor {
+			w.observeHookCall(call)
+		}
+	})
 	w.cc = cfg.compositeController(w.hooks)
 	return w
 }
@@ -449,6 +458,7 @@ func (w *world) flushCounters(prop string) {
 	}
 	r.Counter(prop, "syncs", atomic.LoadInt64(&w.syncs))
 	r.Counter("C11", "parent_writes_judged_by_mstatus", int64(w.statusJudged))
+	r.Counter("C03", "hook_requests_judged_by_mview", int64(w.viewsJudged))
 	r.Counter("C06", "child_requests_judged_by_mstrategy", int64(w.strategyJudged))
 	if !w.noMonitors {
 		// every scenario is also a C17 case: its syncs ran under the cache-fingerprint oracle
